@@ -22,6 +22,7 @@ import (
 // schedules (DESIGN.md §3 C01).
 
 type c01Case struct {
+	IDs     []int `json:",omitempty"` // identifiers of the parties, ascending (nil = 1..N)
 	N, T    int
 	Silent  bool
 	Sched   sim.Schedule
@@ -56,10 +57,38 @@ func genDigest(t *rapid.T, label string) []byte {
 	}
 }
 
+// c01IDs: the identifiers of the parties (node identifier = party identifier); 1..N when the case does not name them.
+func c01IDs(c c01Case) []uint16 {
+	if len(c.IDs) == c.N {
+		return u16s(c.IDs)
+	}
+	return u16s(seq(1, c.N))
+}
+
+func selfMembership(ids []uint16) map[uint16]uint16 {
+	m := map[uint16]uint16{}
+	for _, id := range ids {
+		m[id] = id
+	}
+	return m
+}
+
 func genC01(maxN int) func(t *rapid.T) c01Case {
 	return func(t *rapid.T) c01Case {
 		var c c01Case
 		c.N = rapid.IntRange(2, maxN).Draw(t, "n")
+		if rapid.Bool().Draw(t, "otherIDs") {
+			// node and party identifiers coincide but are not 1..n (small values; large ones are C13's subject)
+			seen := map[int]bool{}
+			for len(c.IDs) < c.N {
+				id := rapid.IntRange(1, 60).Draw(t, "id")
+				if !seen[id] {
+					seen[id] = true
+					c.IDs = append(c.IDs, id)
+				}
+			}
+			c.IDs = sortedInts(c.IDs)
+		}
 		c.T = rapid.IntRange(2, c.N).Draw(t, "t")
 		c.Silent = rapid.Bool().Draw(t, "silent")
 		c.Sched = genSchedule(t, 600)
@@ -130,14 +159,17 @@ type c01Info struct {
 
 func runC01(c c01Case) *vh.Outcome {
 	o := &vh.Outcome{}
-	all := u16s(seq(1, c.N))
+	all := c01IDs(c)
 	info := &c01Info{}
 	o.Info = info
 	var shares [][]byte
 	var sigs [][]byte
 	var fail *vh.Failure
 
-	signers := u16s(c.Signers)
+	var signers []uint16 // c.Signers are positions 1..N
+	for _, p := range c.Signers {
+		signers = append(signers, all[p-1])
+	}
 	k := len(signers)
 
 	br := sim.Bubble(theT, func() {
@@ -145,7 +177,7 @@ func runC01(c c01Case) *vh.Outcome {
 		ctx, cancel := context.WithTimeout(context.Background(), callTimeout)
 		defer cancel()
 		cl := stack.New(net, stack.Config{
-			Membership: identityMembership(c.N),
+			Membership: selfMembership(all),
 			Silent:     c.Silent,
 			Threshold:  k - 1,
 			KGF: func(node uint16) tss.KeyGenFactory {
@@ -245,6 +277,9 @@ func runC01(c c01Case) *vh.Outcome {
 		return o
 	}
 	o.Classes = append(o.Classes, fmt.Sprintf("n=%d", c.N), fmt.Sprintf("silent=%v", c.Silent), fmt.Sprintf("subset-order=%d", c.Order))
+	if len(c.IDs) == c.N {
+		o.Classes = append(o.Classes, "identifiers-not-1..n")
+	}
 	asc := true
 	for i := 1; i < len(c.PickPerm); i++ {
 		if c.PickPerm[i] < c.PickPerm[i-1] {
@@ -340,7 +375,7 @@ func runC01(c c01Case) *vh.Outcome {
 			}
 			for _, p := range ord {
 				ss = append(ss, partials[p-1])
-				ids = append(ids, uint16(p))
+				ids = append(ids, all[p-1])
 			}
 			agg, err := v.AggregateSignatures(ss, ids)
 			if err != nil {
